@@ -44,6 +44,7 @@ fn main() {
         "C06" => props::c06::run(&mut ctx),
         "C07" => props::c07::run(&mut ctx),
         "C08" => props::c08::run(&mut ctx),
+        "C09" => props::c09::run(&mut ctx),
         "C10" => props::c10::run(&mut ctx),
         "C12" => props::c12::run(&mut ctx),
         "C16" => props::c16::run(&mut ctx),
